@@ -80,6 +80,11 @@ def check_record(chk, r, rp, inp, tol, impl):
             if f.area is None or any(x is None for x in f.normal) or any(x is None for x in f.centroid):
                 ok = False
                 break
+            if abs(f.area) <= tol.area:
+                # a face of negligible area: its centroid is 0/0 (the code reports the origin), which for a box far from the
+                # origin would turn a rounding-level area into a visible term; its true contribution is below the tolerance
+                chk.extra_cov['negligible_faces_skipped_in_closure'] = chk.extra_cov.get('negligible_faces_skipped_in_closure', 0) + 1
+                continue
             if f.left == i:
                 n, cen = f.normal, f.centroid
             else:
